@@ -18,6 +18,7 @@ import (
 	"strconv"
 	"strings"
 	"sync"
+	"sync/atomic"
 	"time"
 
 	raft "github.com/jmsadair/raft"
@@ -65,6 +66,7 @@ type Call struct {
 // ---------------- cluster ----------------
 
 type Node struct {
+	Parked      *int32 // InstallSnapshot handlers currently running or parked in this incarnation
 	ID          string
 	Addr        string
 	Dir         string
@@ -76,7 +78,13 @@ type Node struct {
 	Incarnation int
 }
 
+type incarnation struct {
+	r *raft.Raft
+	s *Stores
+}
+
 type Cluster struct {
+	all      []incarnation
 	mu       sync.Mutex
 	Nodes    map[string]*Node
 	Order    []string
@@ -99,6 +107,7 @@ func NewCluster(root string, ids []string, et, ld int) *Cluster {
 func (c *Cluster) Open(id string) error {
 	n := c.Nodes[id]
 	n.Incarnation++
+	n.Parked = new(int32)
 	n.FSM = &FSM{}
 	n.T = &Transport{c: c, id: id, inc: n.Incarnation}
 	if err := os.MkdirAll(n.Dir, 0o755); err != nil {
@@ -127,6 +136,7 @@ func (c *Cluster) Open(id string) error {
 		return err
 	}
 	n.R = r
+	c.all = append(c.all, incarnation{r, n.Store})
 	return nil
 }
 
@@ -165,10 +175,13 @@ func (c *Cluster) LiveCalls() []*Call {
 	defer c.mu.Unlock()
 	var out []*Call
 	for _, cl := range c.Calls {
-		if !cl.Done {
+		// a call whose sender gave up while the handler is still parked stays visible (state Z)
+		if !cl.Done || (cl.Waiting && cl.ID >= 0) {
 			out = append(out, cl)
 		}
 	}
+	// registration order depends on goroutine scheduling; ids are assigned canonically
+	sort.SliceStable(out, func(i, j int) bool { return out[i].ID < out[j].ID })
 	return out
 }
 
@@ -303,7 +316,10 @@ func (c *Cluster) Deliver(cl *Call, dup bool) {
 		case "IS":
 			q := cl.IS
 			var p raft.InstallSnapshotResponse
+			parked := dst.Parked
+			atomic.AddInt32(parked, 1)
 			err := t.is(&q, &p)
+			atomic.AddInt32(parked, -1)
 			finish(p, err)
 		}
 	}()
@@ -532,7 +548,11 @@ var stackBuf = make([]byte, 4<<20)
 func Settled() (bool, string) {
 	n := runtime.Stack(stackBuf, true)
 	for _, g := range strings.Split(string(stackBuf[:n]), "\n\n") {
-		if !strings.Contains(g, raftFrameMarker) {
+		if strings.Contains(g, "sim.Settled") {
+			continue // the polling goroutine itself
+		}
+		// goroutines inside the library, and harness goroutines about to enter it
+		if !strings.Contains(g, raftFrameMarker) && !strings.Contains(g, "verifharness/sim.") {
 			continue
 		}
 		hdr := g
@@ -768,6 +788,7 @@ func (c *Cluster) NodeS(id string) string {
 	}
 	n.FSM.mu.Unlock()
 	sb.WriteString(" fsm=" + joinOr(ops) + " applies=" + joinOr(aps))
+	fmt.Fprintf(&sb, " iswait=%d", atomic.LoadInt32(n.Parked))
 	return sb.String()
 }
 
@@ -815,4 +836,15 @@ func LogS(l raft.Log) (s string) {
 		p = append(p, EntryS(e))
 	}
 	return strings.Join(p, ",")
+}
+
+// API calls made from harness goroutines (their frames mark the goroutine for the quiescence detector).
+func SubmitVia(n *Node, b []byte, ty raft.OperationType) raft.Future[raft.OperationResponse] {
+	return n.R.SubmitOperation(b, ty, time.Hour)
+}
+func AddVia(n *Node, id string, voter bool) raft.Future[raft.Configuration] {
+	return n.R.AddServer(id, "addr-"+id, voter, time.Hour)
+}
+func RemoveVia(n *Node, id string) raft.Future[raft.Configuration] {
+	return n.R.RemoveServer(id, time.Hour)
 }
